@@ -14,6 +14,7 @@ import (
 	"io"
 	"net"
 	"os"
+	"os/exec"
 	"path/filepath"
 	"sort"
 	"strings"
@@ -158,6 +159,16 @@ func (t sTree) describe(meta bool) string {
 }
 
 var devNull, _ = os.OpenFile(os.DevNull, os.O_WRONLY, 0)
+
+// cliMain runs gokr-rsync's Main with its restrictions on; exit status 0 means it reported success
+func cliMain(args []string) {
+	env := &rsyncos.Env{Stdin: strings.NewReader(""), Stdout: io.Discard, Stderr: io.Discard}
+	if _, err := maincmd.Main(context.Background(), env, args, nil); err != nil {
+		fmt.Fprintln(os.Stdout, "err:", err)
+		os.Exit(1)
+	}
+	os.Exit(0)
+}
 
 func quietEnv() *rsyncos.Env {
 	return &rsyncos.Env{Stdin: strings.NewReader(""), Stdout: io.Discard, Stderr: io.Discard, DontRestrict: true}
@@ -379,21 +390,42 @@ func suiteSession(h *H) {
 		type arrT struct {
 			tag  string
 			args func(dst string, d *daemon) []string
+			ext  bool // run the arguments as an external command (another implementation as the client)
 		}
 		d, derr := startDaemon([]rsyncd.Module{{Name: "w", Path: filepath.Join(ds, "dst-push"), Writable: true}})
 		arrs := []arrT{{"local", func(dst string, _ *daemon) []string {
 			return []string{"rsync", "-rt", filepath.Join(ds, "s1") + "/", filepath.Join(ds, "s2") + "/", dst}
-		}}}
+		}, false}}
 		if derr == nil {
 			arrs = append(arrs, arrT{"push", func(dst string, d *daemon) []string {
 				return []string{"rsync", "-rt", filepath.Join(ds, "s1") + "/", filepath.Join(ds, "s2") + "/", d.url("w", "")}
-			}})
+			}, false})
+		}
+		// another implementation as the client of this daemon (tridge rsync, when installed): it sorts the list it
+		// received its own way and keeps the first of equal names — the daemon's numbering must agree with it
+		var dsrc *daemon
+		if tr, err := exec.LookPath("rsync"); err == nil {
+			if d2, err := startDaemon([]rsyncd.Module{{Name: "m", Path: ds}}); err == nil {
+				dsrc = d2
+				arrs = append(arrs, arrT{"pull-by-tridge", func(dst string, _ *daemon) []string {
+					return []string{tr, "-rt", d2.url("m", "s1/"), d2.url("m", "s2/"), dst + "/"}
+				}, true})
+			}
 		}
 		for _, a := range arrs {
 			dst := filepath.Join(ds, "dst-"+a.tag)
 			os.MkdirAll(dst, 0o755)
 			done := make(chan string, 1)
 			go func() {
+				if a.ext {
+					argv := a.args(dst, d)
+					if outb, err := exec.Command(argv[0], argv[1:]...).CombinedOutput(); err != nil {
+						done <- "err:" + err.Error() + ": " + string(outb)
+					} else {
+						done <- "ok"
+					}
+					return
+				}
 				_, err := maincmd.Main(context.Background(), quietEnv(), a.args(dst, d), nil)
 				if err != nil {
 					done <- "err:" + err.Error()
@@ -432,9 +464,175 @@ func suiteSession(h *H) {
 			}
 			h.emit(fmt.Sprintf("!session-dups seed=%d %s files=%d", h.seed, a.tag, nDup), out, v, out == "ok")
 			h.stat("session.dups")
+			if out == "ok" && v == "" && !a.ext && a.tag == "local" {
+				// the same invocation once more: a repeated sync is a no-op (C12) — also when two sources name the same files
+				before := snapshot(dst)
+				_, err := maincmd.Main(context.Background(), quietEnv(), a.args(dst, d), nil)
+				after := snapshot(dst)
+				v2 := ""
+				if err != nil {
+					v2 = "FAIL[C12] the repeated transfer of two sources with equal names failed: " + err.Error()
+				}
+				for _, pth := range before.keys() {
+					if b, a2 := before[pth], after[pth]; b.kind == 'f' && (!bytes.Equal(b.content, a2.content) || b.mtime != a2.mtime) && v2 == "" {
+						v2 = fmt.Sprintf("FAIL[C12] repeating a sync of two sources that name the same files changed %q again (content or modification time flips between the sources on every run)", pth)
+					}
+				}
+				h.emit(fmt.Sprintf("!session-dups-repeat seed=%d %s files=%d", h.seed, a.tag, nDup), "ok", v2, true)
+			}
 		}
 		if derr == nil {
 			d.stop()
+		}
+		if dsrc != nil {
+			dsrc.stop()
+		}
+	}
+	// ---- the command line as a user's shell runs it: local copies with the process restrictions (landlock) the
+	// implementation applies to itself when the kernel offers them. A run that reports success has copied the source.
+	if self, err := os.Executable(); err == nil {
+		rd := filepath.Join(base, "restricted")
+		os.MkdirAll(filepath.Join(rd, "src", "sub", "inner"), 0o755)
+		os.WriteFile(filepath.Join(rd, "src", "sub", "f"), []byte("payload"), 0o644)
+		os.WriteFile(filepath.Join(rd, "src", "sub", "inner", "g"), []byte("payload2"), 0o644)
+		for _, c := range []struct{ tag, srcArg, want string }{
+			{"dir/", filepath.Join(rd, "src", "sub") + "/", "f"},
+			{"dir", filepath.Join(rd, "src", "sub"), "sub/f"},
+			{"file", filepath.Join(rd, "src", "sub", "f"), "f"},
+		} {
+			dst := filepath.Join(rd, "dst-"+strings.ReplaceAll(c.tag, "/", "S"))
+			os.MkdirAll(dst, 0o755)
+			cmd := exec.Command(self, "-cli", "rsync", "-rt", c.srcArg, dst+"/")
+			outb, err := cmd.CombinedOutput()
+			v := ""
+			res := "ok"
+			if err != nil {
+				res = "err"
+			} else if b, rerr := os.ReadFile(filepath.Join(dst, c.want)); rerr != nil || string(b) != "payload" {
+				v = fmt.Sprintf("FAIL[C01] the restricted command line `rsync -rt %s dst/` reported success but %q was not copied (the process may not read what its own sender opens)", c.tag, c.want)
+			}
+			_ = outb
+			h.emit(fmt.Sprintf("!session-restricted seed=%d source=%s", h.seed, c.tag), res, v, true)
+			h.stat("session.restricted")
+		}
+	}
+	// ---- --delete next to protected entries of every kind, and rules that name the transfer root itself: fixed
+	// small trees in every arrangement
+	{
+		type fx struct {
+			tag        string
+			src, dst   sTree
+			opts       []string
+			stay, gone []string // destination paths that must survive / must be removed
+		}
+		f := func(c string) sNode { return sNode{kind: 'f', content: []byte(c), perm: 0o644, mtime: oldT} }
+		dnode := sNode{kind: 'd', perm: 0o755, mtime: oldT}
+		fixtures := []fx{
+			{"protected-dirlink", sTree{"a": f("a")}, sTree{"a": f("a"), "cache": sNode{kind: 'l', target: "zdir"}, "cache~after": f("x"), "zdir": dnode, "zdir/inner": f("y"), "zz": f("z")},
+				[]string{"-a", "--delete", "--exclude=cache"}, []string{"a", "cache"}, []string{"cache~after", "zdir", "zz"}},
+			{"protected-file", sTree{"a": f("a")}, sTree{"a": f("a"), "cache": f("c"), "cache~after": f("x"), "zz": f("z")},
+				[]string{"-a", "--delete", "--exclude=cache"}, []string{"a", "cache"}, []string{"cache~after", "zz"}},
+			{"protected-dir", sTree{"a": f("a")}, sTree{"a": f("a"), "cache": dnode, "cache/in": f("c"), "cache~after": f("x"), "zz": f("z")},
+				[]string{"-a", "--delete", "--exclude=cache"}, []string{"a", "cache", "cache/in"}, []string{"cache~after", "zz"}},
+			{"rule-names-root", sTree{"keep": f("k"), "src": f("nested same name"), "other": dnode, "other/file": f("o")}, sTree{},
+				[]string{"-a", "--exclude=src"}, []string{"keep", "other", "other/file"}, []string{"src"}},
+			{"dironly-rule-names-root", sTree{"keep": f("k"), "src": dnode, "src/x": f("x"), "zlast": f("z")}, sTree{},
+				[]string{"-a", "--exclude=src/"}, []string{"keep", "zlast"}, []string{"src", "src/x"}},
+		}
+		for _, fxr := range fixtures {
+			for _, arr := range []byte("LPU") {
+				caseNo++
+				dir := filepath.Join(base, fmt.Sprintf("fx%d", caseNo))
+				srcRoot, dstRoot := filepath.Join(dir, "src"), filepath.Join(dir, "dst")
+				os.MkdirAll(srcRoot, 0o755)
+				os.MkdirAll(dstRoot, 0o755)
+				fxr.src.write(srcRoot)
+				fxr.dst.write(dstRoot)
+				out := runArr(arr, fxr.opts, srcRoot, true, dstRoot)
+				after := snapshot(dstRoot)
+				v := ""
+				if out != "ok" {
+					v = "FAIL[C01] the transfer failed: " + strings.SplitN(out, "\n", 2)[0]
+				}
+				for _, pth := range fxr.stay {
+					if _, ok := after[pth]; !ok && v == "" {
+						v = fmt.Sprintf("FAIL[C13] %q is missing after the transfer (options %v): it is listed and not excluded, or protected by the rule", pth, fxr.opts)
+						if _, wasThere := fxr.dst[pth]; wasThere {
+							v = fmt.Sprintf("FAIL[C09] %q, which the exclude rule protects (or the list names), was removed (options %v)", pth, fxr.opts)
+						}
+					}
+				}
+				for _, pth := range fxr.gone {
+					if _, ok := after[pth]; ok && v == "" {
+						if _, wasThere := fxr.dst[pth]; wasThere {
+							v = fmt.Sprintf("FAIL[C09] extraneous entry %q survived --delete next to a protected entry (options %v)", pth, fxr.opts)
+						} else {
+							v = fmt.Sprintf("FAIL[C13] excluded entry %q was transferred (options %v)", pth, fxr.opts)
+						}
+					}
+				}
+				h.emit(fmt.Sprintf("!session-fixture seed=%d %s arr=%c", h.seed, fxr.tag, arr), strings.SplitN(out, ":", 2)[0], v, true)
+				h.stat("session.fixture")
+				os.RemoveAll(dir)
+			}
+		}
+	}
+	// ---- options that decide what the *sending* side lists, given to a client whose peer sends: the outcome must not
+	// depend on who sends (C14). One source directory named without a trailing slash, without -r:
+	// -d lists the directory itself, --no-d / nothing lists nothing below it.
+	{
+		dd := filepath.Join(base, "dirsopt")
+		os.MkdirAll(filepath.Join(dd, "srcs", "sub", "inner"), 0o755)
+		os.WriteFile(filepath.Join(dd, "srcs", "sub", "f"), []byte("f"), 0o644)
+		os.WriteFile(filepath.Join(dd, "srcs", "top"), []byte("top"), 0o644)
+		for _, optset := range [][]string{{"-d"}, {"-dt"}, {"-d", "-p"}, {"--dirs"}, {"-t"}, {"-r", "--no-d"}, {"-d", "--no-r"}} {
+			d, err := startDaemon([]rsyncd.Module{{Name: "m", Path: filepath.Join(dd, "srcs")}, {Name: "w", Path: filepath.Join(dd, "dst-U"), Writable: true}})
+			if err != nil {
+				break
+			}
+			results := map[string]string{}
+			for _, arr := range []string{"L", "P", "U"} {
+				dst := filepath.Join(dd, "dst-"+arr)
+				os.RemoveAll(dst)
+				os.MkdirAll(dst, 0o755)
+				var args []string
+				switch arr {
+				case "L":
+					args = append(append([]string{"rsync"}, optset...), filepath.Join(dd, "srcs", "sub"), filepath.Join(dd, "srcs", "top"), dst+"/")
+				case "P":
+					args = append(append([]string{"rsync"}, optset...), d.url("m", "sub"), d.url("m", "top"), dst+"/")
+				case "U":
+					args = append(append([]string{"rsync"}, optset...), filepath.Join(dd, "srcs", "sub"), filepath.Join(dd, "srcs", "top"), d.url("w", ""))
+				}
+				done := make(chan string, 1)
+				go func() {
+					if _, err := maincmd.Main(context.Background(), quietEnv(), args, nil); err != nil {
+						done <- "err:" + strings.SplitN(err.Error(), "\n", 2)[0]
+					} else {
+						done <- "ok"
+					}
+				}()
+				out := "timeout"
+				select {
+				case out = <-done:
+				case <-time.After(30 * time.Second):
+				}
+				var names []string
+				for _, p := range snapshot(dst).keys() {
+					names = append(names, p)
+				}
+				results[arr] = strings.SplitN(out, ":", 2)[0] + " [" + strings.Join(names, " ") + "]"
+			}
+			d.stop()
+			v := ""
+			// (several remote sources in one pull: known finding D19 — compare what the first source gives)
+			if results["L"] != results["U"] {
+				v = fmt.Sprintf("FAIL[C14] options %v: a local copy gives %s, an upload of the same sources gives %s", optset, results["L"], results["U"])
+			} else if !strings.Contains(results["P"], "sub") != !strings.Contains(results["L"], "sub") {
+				v = fmt.Sprintf("FAIL[C14] options %v: a local copy gives %s, a pull of the same sources gives %s: the option does not reach the sending side", optset, results["L"], results["P"])
+			}
+			h.emit(fmt.Sprintf("!session-dirsopt seed=%d opts=%v", h.seed, optset), results["L"]+" | "+results["P"]+" | "+results["U"], v, true)
+			h.stat("session.dirsopt")
 		}
 	}
 	nCases := h.n(40, 1200)
@@ -447,8 +645,8 @@ func suiteSession(h *H) {
 		for j := 0; j < nf; j++ {
 			parent := dirs[h.rng.Intn(len(dirs))]
 			// (names that begin like a rule prefix are plain names too: --exclude='+ plus' names the entry "+ plus")
-			name := []string{"a", "b", "c", "d", "e", "file with space", "caf\xc3\xa9", "x\xffy", ".dot", "z.txt", "+ plus", "- minus", "plus", "minus"}[h.rng.Intn(14)]
-			if i%8 == 0 { // every eighth case: only names that look like rules, and rules naming them
+			name := []string{"a", "b", "c", "d", "e", "file with space", "caf\xc3\xa9", "x\xffy", ".dot", "z.txt", "+ plus", "- minus", "plus", "minus", "src"}[h.rng.Intn(15)] // ("src" is also the name of the transfer root itself)
+			if i%8 == 0 {                                                                                                                                                       // every eighth case: only names that look like rules, and rules naming them
 				name = []string{"+ plus", "- minus", "plus", "minus", "a"}[h.rng.Intn(5)]
 			}
 			p := filepath.Join(parent, name)
@@ -542,9 +740,25 @@ func suiteSession(h *H) {
 			if _, ok := src[p]; ok {
 				continue
 			}
+			if h.rng.Intn(5) == 0 && len(names) > 0 {
+				// an extraneous symlink to a directory, named like a source entry (so a rule can protect it), with
+				// extraneous neighbours sorting after it
+				base := filepath.Base(names[h.rng.Intn(len(names))])
+				lp := filepath.Join(parent, base)
+				if _, inSrc := src[lp]; !inSrc {
+					if _, inDst := dst[lp]; !inDst {
+						dst[lp] = sNode{kind: 'l', target: "."}
+						dst[filepath.Join(parent, base+"~after")] = sNode{kind: 'f', content: []byte("extraneous"), perm: 0o644, mtime: oldT}
+					}
+				}
+			}
 			if h.rng.Intn(3) == 0 {
 				dst[p] = sNode{kind: 'd', perm: 0o755, mtime: oldT}
 				dst[p+"/inner"] = sNode{kind: 'f', content: []byte("x"), perm: 0o644, mtime: oldT}
+				if len(names) > 0 && h.rng.Intn(2) == 0 {
+					// an entry inside the extraneous directory that carries the name of a source entry: a rule naming it protects it
+					dst[p+"/"+filepath.Base(names[h.rng.Intn(len(names))])] = sNode{kind: 'f', content: []byte("keep me"), perm: 0o644, mtime: oldT}
+				}
 			} else {
 				dst[p] = sNode{kind: 'f', content: []byte("extraneous"), perm: 0o644, mtime: oldT}
 			}
@@ -707,6 +921,11 @@ func suiteSession(h *H) {
 							}
 							if !anc && protected && !survived {
 								v = fmt.Sprintf("FAIL[C09] entry %q protected by an exclude rule was deleted", p)
+								if par := filepath.Dir(p); par != "." {
+									if _, listedPar := src[par]; !listedPar && !excludedBy(rules, par) {
+										v += " together with the extraneous directory above it (such a directory is removed with everything in it)"
+									}
+								}
 							}
 						} else if !survived && anc {
 							// without --delete nothing listed disappears (type changes replace, never remove)
